@@ -9,13 +9,19 @@
 (*  {"ev":"updatomic"}                         queue refreshed (atomic)     *)
 (*  {"ev":"entries"}                           dispatcher read its queue    *)
 (*  {"ev":"setib","w","b"}                     operator: hold/drain/run/any *)
-(*  {"ev":"startcall","c","w","snap":[ib..],"qs","qp"}  StartContainer ok  *)
+(*  {"ev":"startcall","c","w","bad":[w..],"qs","qp"}    StartContainer ok  *)
 (*  {"ev":"procstart","c","w","others":[w..]}  exact: process created       *)
 (*  {"ev":"procsnap","c","w","others":[w..]}   sound: process created, the  *)
 (*                                             process tables sampled       *)
+(*  {"ev":"startrefused","c"}  (sound) StartContainer answered false: the  *)
+(*                         startcall logged just before it is void          *)
 (*  {"ev":"startfailed","c","w"}, {"ev":"exit","c","w"}, {"ev":"vmgone","w"}, *)
 (*  {"ev":"restart"}                                                        *)
-(*  {"ev":"kill",..}, {"ev":"create",..}, {"ev":"note",..}  unconstrained  *)
+(*  {"ev":"kill",..}, {"ev":"create",..}, {"ev":"note",..}, {"ev":"final",..} *)
+(*                                             unconstrained here          *)
+(*  {"ev":"crashed","msg","where"}  the dispatcher process died (a panic in *)
+(*                         the code under test): the recorded prefix is    *)
+(*                         judged, the crash itself is reported separately *)
 (*  {"ev":"stubbug","c"}   the stub VM noticed two processes of c on one VM *)
 (*                         (never allowed)                                  *)
 (* Containers beyond nc and instances beyond nw are inert.                 *)
@@ -23,6 +29,10 @@
 EXTENDS DispatchContract, TraceIO
 
 Range(s) == {s[i] : i \in DOMAIN s}
+
+\* identity sets for the end-to-end judge (cfg: Ctrs <- BigCtrs, Wk <- BigWk)
+BigCtrs == 1 .. 520
+BigWk == 0 .. 1000
 
 TraceInit == /\ l = 1
              /\ DCInit([c \in Ctrs |-> [state |-> "Complete", prio |-> 0]], "exact")
@@ -33,12 +43,10 @@ TraceReset ==
                               ELSE [state |-> "Complete", prio |-> 0]]
     /\ procs' = [w \in Wk |-> {}]
     /\ ib' = [w \in Wk |-> "run"]
-    /\ lk' = [c \in Ctrs |-> FALSE] /\ lkNext' = [c \in Ctrs |-> FALSE] /\ pass' = [c \in Ctrs |-> FALSE]
-    /\ ever' = [c \in Ctrs |-> c <= Len(Ev.init) /\ Ev.init[c] = "Locked"]
+    /\ lk' = {} /\ lkNext' = {} /\ pass' = {}
+    /\ ever' = {c \in Ctrs : c <= Len(Ev.init) /\ Ev.init[c] = "Locked"}
     /\ pend' = [c \in Ctrs |-> NoPend]
     /\ mode' = Ev.mode
-
-Snap(s) == [w \in Wk |-> IF w <= Len(s) THEN s[w] ELSE "run"]
 
 TraceNext ==
     \/ TraceReset
@@ -46,14 +54,15 @@ TraceNext ==
     \/ IsEvent("updatomic") /\ UpdAtomic
     \/ IsEvent("entries") /\ Entries
     \/ IsEvent("setib") /\ SetIB(Ev.w, Ev.b)
-    \/ IsEvent("startcall") /\ StartCall(Ev.c, Snap(Ev.snap), Ev.qs, Ev.qp)
+    \/ IsEvent("startcall") /\ StartCall(Ev.c, Range(Ev.bad), Ev.qs, Ev.qp)
     \/ IsEvent("procstart") /\ ProcStart(Ev.c, Ev.w)
     \/ IsEvent("procsnap") /\ ProcStartSnap(Ev.c, Ev.w, Range(Ev.others))
     \/ IsEvent("startfailed") /\ StartFailed(Ev.c)
+    \/ IsEvent("startrefused") /\ StartFailed(Ev.c)
     \/ IsEvent("exit") /\ ProcExit(Ev.c, Ev.w)
     \/ IsEvent("vmgone") /\ VmGone(Ev.w)
-    \/ IsEvent("restart") /\ Restart
-    \/ (IsEvent("kill") \/ IsEvent("create") \/ IsEvent("note")) /\ Other
+    \/ IsEvent("restart") /\ (IF mode = "sound" THEN SoftRestart ELSE Restart)
+    \/ (IsEvent("kill") \/ IsEvent("create") \/ IsEvent("note") \/ IsEvent("final") \/ IsEvent("crashed")) /\ Other
 
 TraceSpec == TraceInit /\ [][TraceNext]_<<dcvars, l>>
 =============================================================================
